@@ -59,7 +59,61 @@ BODY = ("From CB Require Import SeqlockInv GenCyc SeqlockRA SeqlockMono SeqlockF
         "Print Assumptions C03_monotone_for_the_running_code.\nPrint Assumptions C03_fresh_for_the_running_code.\n")
 
 
+def sequence_part(res):
+    """without the shim: sequences of publications in which a record differs from the one before in exactly one
+    field (the status only, the bound only, the as-of running backwards, ...), in none, or in all, read after
+    each publication by a client that has been attached all along and by one that attaches afresh: the writer
+    is idle, so both obtain the record just published"""
+    import random
+    rng = random.Random(res.seed * 13 + 3)
+    lines, seqs = [], []
+    for _ in range(80 if res.tier == "quick" else 3000):
+        cur = [rng.randrange(1, 10 ** 5), rng.randrange(10 ** 9), rng.randrange(1, 10 ** 5), 0, rng.randrange(10 ** 9), rng.choice([1000, 50000]), rng.randrange(3)]
+        seq = [tuple(cur)]
+        for _k in range(rng.randrange(1, 8)):
+            f = rng.choice([6, 6, 6, 4, 0, 1, 2, 5, -1, -2])
+            if f == 6:
+                cur[6] = (cur[6] + rng.choice([1, 2])) % 3
+            elif f == 4:
+                cur[4] = rng.choice([0, cur[4] + 1, rng.randrange(10 ** 9)])
+            elif f == 0:
+                cur[0] = max(0, cur[0] + rng.choice([-1000, -1, 1, 16]))
+            elif f == 1:
+                cur[1] = (cur[1] + rng.choice([1, 999999999])) % 10 ** 9
+            elif f == 2:
+                cur[2] = cur[2] + rng.choice([-1, 1, 1000])
+            elif f == 5:
+                cur[5] = rng.choice([0, 1000, cur[5] + 1])
+            elif f == -1:
+                cur = [0, 0, 1000, 0, 0, cur[5], 0]          # the start-up record of a restarted updater
+            seq.append(tuple(cur))                           # (-2: the same record again)
+        seqs.append(seq)
+        lines.append("pubs %d %s" % (len(seq), " ".join(" ".join(map(str, r)) for r in seq)))
+    outs = c.run_lines(c.build_harness("debug")[0], lines) + c.run_lines(c.build_harness("release")[0], lines)
+    bad = []
+    for seq, ln, o in zip(seqs + seqs, lines + lines, outs):
+        res.evaluations += 1
+        res.count("gen:publication sequences with one field changed (no shim)")
+        res.nontriv(ln)
+        t = o.split()
+        for k, r in enumerate(seq):
+            want = ":".join(map(str, r))
+            got_l = t[2 * k][2:] if 2 * k < len(t) else "missing"
+            got_f = t[2 * k + 1][2:] if 2 * k + 1 < len(t) else "missing"
+            if got_l != want or got_f != want:
+                bad.append({"schedule": ln, "impl": o,
+                            "why": ["publication %d (%s) is complete and no update is in flight; the client attached all along obtained %s, a client attaching now %s"
+                                    % (k + 1, want, got_l, got_f)]})
+                break
+    res.oblige("after every publication of a sequence both an attached and a fresh client obtain it (%d sequences, shim-free)" % len(outs), not bad)
+    if bad:
+        res.violation({"property": "C03", "kind": "history", "case": bad[0], "others": [b["schedule"][:200] for b in bad[1:4]],
+                       "predicate": "if no update is in flight while a call executes, the call returns the most recently completed publication",
+                       "how_to_replay": "./check C03"})
+
+
 def run(res, proofs_ok, proofs_why):
+    sequence_part(res)
     cfg, binary = _shm.run_property("C03", res, proofs_ok, proofs_why)
     if cfg is None:
         return
